@@ -185,6 +185,654 @@ Proof.
     simpl. rewrite !concat_app, Hc, IHops, print_true_spine_strip.
     destruct ops as [|c2 ops]; [simpl; rewrite app_nil_r; reflexivity|].
     rewrite concat_op_chunk. reflexivity.
-  - destruct k; simpl; rewrite app_nil_r; reflexivity.
-  - destruct k; simpl; rewrite app_nil_r; reflexivity.
+Qed.
+
+(* ================================================================ D. the output is a re-spacing *)
+
+Definition sp (k : nat) : str := repeat c_space k.
+
+(* a separator: one blank or one newline, followed by blanks *)
+Definition ws_sep (x : str) : Prop := exists k, x = sp (S k) \/ x = c_nl :: sp k.
+
+(* every newline of s replaced by J *)
+Definition subst_nl (J : str) (s : str) : str :=
+  flat_map (fun c => if N.eqb c c_nl then J else [c]) s.
+
+(* c' is c with every newline replaced by a separator *)
+Inductive nlr : str -> str -> Prop :=
+| nlr_nil : nlr [] []
+| nlr_char x c c' : x <> c_nl -> nlr c c' -> nlr (x :: c) (x :: c')
+| nlr_nl c c' sep : ws_sep sep -> nlr c c' -> nlr (c_nl :: c) (sep ++ c').
+
+(* s is the chunks cs (each with its newlines replaced by separators) glued by separators *)
+Inductive spaced : list str -> str -> Prop :=
+| sp_one c c' : nlr c c' -> spaced [c] c'
+| sp_cons c c' sep cs s : nlr c c' -> ws_sep sep -> spaced cs s -> spaced (c :: cs) (c' ++ sep ++ s).
+
+(* ... after leading blanks *)
+Definition lspaced (cs : list str) (s : str) : Prop := exists k s', s = sp k ++ s' /\ spaced cs s'.
+
+Lemma sp_app a b : sp a ++ sp b = sp (a + b).
+Proof. unfold sp. rewrite repeat_app. reflexivity. Qed.
+
+Lemma split_nl_nonempty s : split_nl s <> [].
+Proof. destruct s as [|c s]; simpl; [discriminate|]. destruct (N.eqb c c_nl); [discriminate|].
+  destruct (split_nl s); discriminate. Qed.
+
+Lemma join_cons2 (J x y : str) l : join J (x :: y :: l) = x ++ J ++ join J (y :: l).
+Proof. reflexivity. Qed.
+
+Lemma join_split_nl J : forall s, join J (split_nl s) = subst_nl J s.
+Proof.
+  induction s as [|c s IH]; [reflexivity|]. simpl.
+  destruct (N.eqb c c_nl).
+  - pose proof (split_nl_nonempty s) as Hn. destruct (split_nl s) as [|x r] eqn:E; [congruence|].
+    rewrite join_cons2, <- IH. reflexivity.
+  - pose proof (split_nl_nonempty s) as Hn. destruct (split_nl s) as [|x r] eqn:E; [congruence|].
+    rewrite <- IH. destruct r; reflexivity.
+Qed.
+
+Lemma flat_map_split_nonempty x r : flat_map split_nl (x :: r) <> [].
+Proof. simpl. pose proof (split_nl_nonempty x). destruct (split_nl x); [congruence|discriminate]. Qed.
+
+Lemma join_flat_split J : forall strs,
+  join J (flat_map split_nl strs) = join J (map (subst_nl J) strs).
+Proof.
+  induction strs as [|x r IH]; [reflexivity|].
+  destruct r as [|y r].
+  - simpl. rewrite app_nil_r. apply join_split_nl.
+  - change (flat_map split_nl (x :: y :: r)) with (split_nl x ++ flat_map split_nl (y :: r)).
+    rewrite join_app by (try apply split_nl_nonempty; apply flat_map_split_nonempty).
+    rewrite IH, join_split_nl. reflexivity.
+Qed.
+
+Lemma subst_nl_app J a b : subst_nl J (a ++ b) = subst_nl J a ++ subst_nl J b.
+Proof. apply flat_map_app. Qed.
+
+Lemma subst_nl_sp J k : subst_nl J (sp k) = sp k.
+Proof.
+  induction k as [|k IH]; [reflexivity|].
+  change (subst_nl J (sp (S k))) with (c_space :: subst_nl J (sp k)). rewrite IH. reflexivity.
+Qed.
+
+Lemma ws_sep_space : ws_sep [c_space].
+Proof. exists 0. left. reflexivity. Qed.
+
+Lemma ws_sep_nl k : ws_sep (c_nl :: sp k).
+Proof. exists k. right. reflexivity. Qed.
+
+Lemma ws_sep_app_sp J k : ws_sep J -> ws_sep (J ++ sp k).
+Proof.
+  intros [j [H|H]]; subst; exists (j + k).
+  - left. rewrite sp_app. reflexivity.
+  - right. simpl. rewrite sp_app. reflexivity.
+Qed.
+
+Lemma ws_sep_subst J x : ws_sep J -> ws_sep x -> ws_sep (subst_nl J x).
+Proof.
+  intros HJ [k [H|H]]; subst.
+  - rewrite subst_nl_sp. exists k. left. reflexivity.
+  - change (subst_nl J (c_nl :: sp k)) with (J ++ subst_nl J (sp k)). rewrite subst_nl_sp.
+    apply ws_sep_app_sp. exact HJ.
+Qed.
+
+Lemma nlr_refl : forall c, nlr c c.
+Proof.
+  induction c as [|x c IH]; [constructor|].
+  destruct (N.eqb x c_nl) eqn:E.
+  - apply N.eqb_eq in E. subst. apply (nlr_nl c c [c_nl] (ws_sep_nl 0) IH).
+  - apply N.eqb_neq in E. constructor; assumption.
+Qed.
+
+Lemma nlr_subst J c c' : ws_sep J -> nlr c c' -> nlr c (subst_nl J c').
+Proof.
+  intros HJ H. induction H as [|x c c' Hx H IH|c c' sep Hs H IH].
+  - constructor.
+  - simpl. apply N.eqb_neq in Hx. rewrite Hx. simpl. constructor; [apply N.eqb_neq; exact Hx|exact IH].
+  - rewrite subst_nl_app. constructor; [apply ws_sep_subst; assumption|exact IH].
+Qed.
+
+Lemma spaced_subst J cs s : ws_sep J -> spaced cs s -> spaced cs (subst_nl J s).
+Proof.
+  intros HJ H. induction H as [c c' Hc|c c' sep cs s Hc Hs H IH].
+  - constructor. apply nlr_subst; assumption.
+  - rewrite !subst_nl_app. constructor; [apply nlr_subst; assumption|apply ws_sep_subst; assumption|exact IH].
+Qed.
+
+Lemma spaced_app a sa sep b sb :
+  spaced a sa -> ws_sep sep -> spaced b sb -> spaced (a ++ b) (sa ++ sep ++ sb).
+Proof.
+  intros Ha Hs Hb. induction Ha as [c c' Hc|c c' sep' cs s Hc Hs' H IH].
+  - simpl. constructor; assumption.
+  - simpl. rewrite <- !app_assoc. constructor; [assumption|assumption|exact IH].
+Qed.
+
+Lemma spaced_nonempty cs s : spaced cs s -> cs <> [].
+Proof. intros H. destruct H; discriminate. Qed.
+
+Lemma lspaced_glue a sa J b sb :
+  lspaced a sa -> ws_sep J -> lspaced b sb -> lspaced (a ++ b) (sa ++ J ++ sb).
+Proof.
+  intros [ka [sa' [Ea Ha]]] HJ [kb [sb' [Eb Hb]]]. subst.
+  exists ka, (sa' ++ (J ++ sp kb) ++ sb'). split.
+  - rewrite <- !app_assoc. reflexivity.
+  - apply spaced_app; [exact Ha|apply ws_sep_app_sp; exact HJ|exact Hb].
+Qed.
+
+Lemma lspaced_subst J cs s : ws_sep J -> lspaced cs s -> lspaced cs (subst_nl J s).
+Proof.
+  intros HJ [k [s' [E H]]]. subst. exists k, (subst_nl J s'). split.
+  - rewrite subst_nl_app, subst_nl_sp. reflexivity.
+  - apply spaced_subst; assumption.
+Qed.
+
+Lemma lspaced_lead k cs s : lspaced cs s -> lspaced cs (sp k ++ s).
+Proof.
+  intros [j [s' [E H]]]. subst. exists (k + j), s'. split; [|exact H].
+  rewrite app_assoc, sp_app. reflexivity.
+Qed.
+
+Lemma lspaced_chunk c : lspaced [c] c.
+Proof. exists 0, c. split; [reflexivity|]. constructor. apply nlr_refl. Qed.
+
+(* ---- chunks of annotated chains *)
+Fixpoint wchunks (w : wchain) : list str :=
+  match w with
+  | WStr s _ => [s]
+  | WStick _ => []
+  | WSub l _ => flat_map wchunks l
+  end.
+
+Section ChainInd.
+  Variable P : chain -> Prop.
+  Hypothesis HStr : forall s, P (CStr s).
+  Hypothesis HStick : P CStick.
+  Hypothesis HSub : forall l, Forall P l -> P (CSub l).
+  Fixpoint chain_ind' (c : chain) : P c :=
+    match c with
+    | CStr s => HStr s
+    | CStick => HStick
+    | CSub l => HSub l ((fix go (l : list chain) : Forall P l :=
+                           match l with
+                           | [] => Forall_nil P
+                           | c :: l' => Forall_cons c (chain_ind' c) (go l')
+                           end) l)
+    end.
+End ChainInd.
+
+Section WChainInd.
+  Variable P : wchain -> Prop.
+  Hypothesis HStr : forall s n, P (WStr s n).
+  Hypothesis HStick : forall n, P (WStick n).
+  Hypothesis HSub : forall l n, Forall P l -> P (WSub l n).
+  Fixpoint wchain_ind' (w : wchain) : P w :=
+    match w with
+    | WStr s n => HStr s n
+    | WStick n => HStick n
+    | WSub l n => HSub l n ((fix go (l : list wchain) : Forall P l :=
+                              match l with
+                              | [] => Forall_nil P
+                              | c :: l' => Forall_cons c (wchain_ind' c) (go l')
+                              end) l)
+    end.
+End WChainInd.
+
+Lemma wchunks_count : forall c, wchunks (count_chars c) = chunks_of_chain c.
+Proof.
+  induction c using chain_ind'; try reflexivity.
+  simpl. induction l as [|c l IHl]; [reflexivity|].
+  inversion H as [|? ? Hc Hl]; subst. simpl. rewrite Hc, (IHl Hl). reflexivity.
+Qed.
+
+Lemma wchunks_count_list l : flat_map wchunks (map count_chars l) = chunks_of l.
+Proof.
+  induction l as [|c l IH]; [reflexivity|]. simpl. rewrite wchunks_count, IH. reflexivity.
+Qed.
+
+(* ---- elements and their chunks *)
+Inductive erel : list elem -> list str -> Prop :=
+| erel_nil : erel [] []
+| erel_stick els cs : erel els cs -> erel (EStick :: els) cs
+| erel_str s c els cs : lspaced c s -> erel els cs -> erel (EStr s :: els) (c ++ cs).
+
+Inductive srel : list str -> list str -> Prop :=
+| srel_nil : srel [] []
+| srel_cons s c strs cs : lspaced c s -> srel strs cs -> srel (s :: strs) (c ++ cs).
+
+Lemma elems_of_erel f : forall l els,
+  Forall (fun w => forall s, f w = POk s -> lspaced (wchunks w) s) l ->
+  elems_of f l = POk els -> erel els (flat_map wchunks l).
+Proof.
+  induction l as [|w l IH]; intros els HF H.
+  - simpl in H. inversion H; subst. constructor.
+  - inversion HF as [|? ? Hw HFl]; subst. simpl in H.
+    destruct w as [s n|n|l1 n1].
+    + destruct (elems_of f l) as [r| | |] eqn:E; try discriminate. inversion H; subst.
+      simpl. apply (erel_str s [s]); [apply lspaced_chunk|apply IH; auto].
+    + destruct (elems_of f l) as [r| | |] eqn:E; try discriminate. inversion H; subst.
+      simpl. constructor. apply IH; auto.
+    + destruct (f (WSub l1 n1)) as [s| | |] eqn:Ef; try discriminate.
+      destruct (elems_of f l) as [r| | |] eqn:E; try discriminate. inversion H; subst.
+      change (flat_map wchunks (WSub l1 n1 :: l)) with (wchunks (WSub l1 n1) ++ flat_map wchunks l).
+      constructor; [apply Hw; reflexivity|apply IH; auto].
+Qed.
+
+Lemma apply_stick_srel : forall els cs, erel els cs -> forall st strs,
+  apply_stick_from st els = POk strs ->
+  match st with
+  | None => srel strs cs
+  | Some (x, _) => forall cx, lspaced cx x -> srel strs (cx ++ cs)
+  end.
+Proof.
+  induction 1 as [|els cs He IH|s c els cs Hs He IH]; intros st strs H.
+  - simpl in H. destruct st as [[x b]|]; [|discriminate]. inversion H; subst.
+    intros cx Hx. constructor; [exact Hx|constructor].
+  - simpl in H. destruct st as [[x b]|]; [|discriminate].
+    exact (IH _ _ H).
+  - simpl in H. destruct st as [[x [|]]|].
+    + intros cx Hx. specialize (IH _ _ H). simpl in IH. rewrite app_assoc. apply IH.
+      change (x ++ c_space :: s) with (x ++ [c_space] ++ s).
+      apply lspaced_glue; [exact Hx|apply ws_sep_space|exact Hs].
+    + destruct (apply_stick_from (Some (s, false)) els) as [r| | |] eqn:E; try discriminate.
+      inversion H; subst. intros cx Hx. constructor; [exact Hx|].
+      specialize (IH _ _ E). simpl in IH. apply IH. exact Hs.
+    + specialize (IH _ _ H). simpl in IH. apply IH. exact Hs.
+Qed.
+
+Lemma apply_stick_nonempty : forall els st strs, apply_stick_from st els = POk strs -> strs <> [].
+Proof.
+  induction els as [|e els IH]; intros st strs H; simpl in H.
+  - destruct st as [[x b]|]; [|discriminate]. inversion H. discriminate.
+  - destruct e as [s|].
+    + destruct st as [[x [|]]|]; try (eapply IH; exact H).
+      destruct (apply_stick_from (Some (s, false)) els); try discriminate. inversion H. discriminate.
+    + destruct st as [[x b]|]; [|discriminate]. eapply IH; exact H.
+Qed.
+
+Lemma srel_join J : ws_sep J -> forall strs cs, srel strs cs -> strs <> [] ->
+  lspaced cs (join J (map (subst_nl J) strs)).
+Proof.
+  intros HJ. induction 1 as [|s c strs cs Hs Hr IH]; intros Hne; [congruence|].
+  destruct strs as [|s2 strs].
+  - inversion Hr; subst. rewrite app_nil_r. simpl. apply lspaced_subst; assumption.
+  - change (map (subst_nl J) (s :: s2 :: strs))
+      with (subst_nl J s :: subst_nl J s2 :: map (subst_nl J) strs).
+    rewrite join_cons2. apply lspaced_glue; [apply lspaced_subst; assumption|exact HJ|].
+    apply IH. discriminate.
+Qed.
+
+Lemma prefix_is_sp cfg : prefix_of cfg = sp (Z.to_nat (p_indent cfg)).
+Proof. reflexivity. Qed.
+
+(* the heart: whatever the counts, levels and widths, a successful _concatenates returns the chunks of
+   its argument, in order, glued by separators *)
+Theorem conc_w_spaced cfg : forall w level iol s,
+  conc_w cfg w level iol = POk s -> lspaced (wchunks w) s.
+Proof.
+  induction w using wchain_ind'; intros level iol s0 Hc.
+  - simpl in Hc. inversion Hc; subst. apply lspaced_chunk.
+  - discriminate.
+  - simpl in Hc. unfold conc_body in Hc.
+    set (one_liner := iol || (n <? p_max_len cfg - p_indent cfg * level)%Z) in *.
+    set (new_level := if one_liner then level else (level + 1)%Z) in *.
+    destruct (elems_of (fun w => conc_w cfg w new_level one_liner) l) as [els| | |] eqn:Eel; try discriminate.
+    destruct (apply_stick els) as [strs| | |] eqn:Eas; try discriminate.
+    inversion Hc; subst s0; clear Hc.
+    assert (Her : erel els (flat_map wchunks l)).
+    { apply (elems_of_erel (fun w => conc_w cfg w new_level one_liner) l els); [|exact Eel].
+      eapply Forall_impl; [|exact H]. intros w Hw s Hs. exact (Hw _ _ _ Hs). }
+    pose proof (apply_stick_srel _ _ Her None strs Eas) as Hsr. simpl in Hsr.
+    pose proof (apply_stick_nonempty _ _ _ Eas) as Hne.
+    rewrite join_flat_split.
+    set (prefix := if negb (level =? 0)%Z && negb iol then prefix_of cfg else []).
+    assert (Hp : exists k, prefix = sp k).
+    { unfold prefix. destruct (negb (level =? 0)%Z && negb iol); [eexists; apply prefix_is_sp|exists 0; reflexivity]. }
+    destruct Hp as [k Hk]. rewrite Hk.
+    simpl. apply lspaced_lead. apply srel_join; [|exact Hsr|exact Hne].
+    destruct one_liner; [apply ws_sep_space|apply ws_sep_nl].
+Qed.
+
+Theorem pretty_spaced cfg t s : pretty cfg t = Some s -> lspaced (chunk_texts t) s.
+Proof.
+  unfold pretty, pretty_res. rewrite (get_chains_spec t _ None (or_introl eq_refl)).
+  set (l := chains (p_inline cfg) None t).
+  destruct (concatenates cfg (map count_chars l) (sum_counts (map count_chars l)) 0 false) as [s'| | |] eqn:E;
+    try discriminate.
+  intros H; inversion H; subst s'; clear H.
+  change (concatenates cfg (map count_chars l) (sum_counts (map count_chars l)) 0 false)
+    with (conc_w cfg (WSub (map count_chars l) (sum_counts (map count_chars l))) 0 false) in E.
+  apply conc_w_spaced in E. simpl in E. rewrite wchunks_count_list in E.
+  unfold l in E. rewrite chunks_of_chains in E. exact E.
+Qed.
+
+(* without a newline in the chunks, nothing inside a chunk changes *)
+Definition has_nl (c : str) : bool := mem_N c_nl c.
+Definition no_newline_in_chunks (t : item) : bool := forallb (fun c => negb (has_nl c)) (chunk_texts t).
+
+Lemma nlr_no_nl c c' : nlr c c' -> has_nl c = false -> c' = c.
+Proof.
+  unfold has_nl. induction 1 as [|x c c' Hx H IH|c c' sep Hs H IH]; intros Hn.
+  - reflexivity.
+  - simpl in Hn. apply orb_false_elim in Hn. f_equal. apply IH. apply Hn.
+  - simpl in Hn. discriminate.
+Qed.
+
+(* s is exactly the chunks glued by separators *)
+Inductive glued : list str -> str -> Prop :=
+| gl_one c : glued [c] c
+| gl_cons c sep cs s : ws_sep sep -> glued cs s -> glued (c :: cs) (c ++ sep ++ s).
+
+Lemma spaced_glued cs s : spaced cs s -> forallb (fun c => negb (has_nl c)) cs = true -> glued cs s.
+Proof.
+  induction 1 as [c c' Hc|c c' sep cs s Hc Hs H IH]; intros HF; simpl in HF;
+    apply andb_prop in HF; destruct HF as [Hn HFl]; apply negb_true_iff in Hn.
+  - rewrite (nlr_no_nl _ _ Hc Hn). constructor.
+  - rewrite (nlr_no_nl _ _ Hc Hn). constructor; [exact Hs|apply IH; exact HFl].
+Qed.
+
+Theorem pretty_glued cfg t s :
+  no_newline_in_chunks t = true -> pretty cfg t = Some s ->
+  exists k s', s = sp k ++ s' /\ glued (chunk_texts t) s'.
+Proof.
+  intros HF H. destruct (pretty_spaced _ _ _ H) as [k [s' [E Hs]]].
+  exists k, s'. split; [exact E|apply spaced_glued; assumption].
+Qed.
+
+(* ================================================================ E. totality *)
+
+(* the two exceptions of _apply_stick come from an empty list or a leading marker; `goodc` says
+   that no inner list (at any depth) is like that *)
+Definition hd_ok (l : list chain) : bool :=
+  match l with [] => false | CStick :: _ => false | _ => true end.
+Fixpoint goodc (c : chain) : bool :=
+  match c with
+  | CSub l => hd_ok l && forallb goodc l
+  | _ => true
+  end.
+
+Definition whd_ok (l : list wchain) : bool :=
+  match l with [] => false | WStick _ :: _ => false | _ => true end.
+Fixpoint goodw (w : wchain) : bool :=
+  match w with
+  | WSub l _ => whd_ok l && forallb goodw l
+  | _ => true
+  end.
+
+Lemma goodw_count : forall c, goodw (count_chars c) = goodc c.
+Proof.
+  induction c using chain_ind'; try reflexivity.
+  simpl. f_equal.
+  - destruct l as [|[ | |] l]; reflexivity.
+  - induction l as [|c l IHl]; [reflexivity|].
+    inversion H as [|? ? Hc Hl]; subst. simpl. rewrite Hc, (IHl Hl). reflexivity.
+Qed.
+
+Lemma apply_stick_some : forall els x b, exists strs, apply_stick_from (Some (x, b)) els = POk strs.
+Proof.
+  induction els as [|e els IH]; intros x b; simpl.
+  - eauto.
+  - destruct e as [s|].
+    + destruct b.
+      * apply IH.
+      * destruct (IH s false) as [r Hr]. rewrite Hr. eauto.
+    + apply IH.
+Qed.
+
+Definition e_is_stick (e : elem) : bool := match e with EStick => true | EStr _ => false end.
+Definition w_is_stick (w : wchain) : bool := match w with WStick _ => true | _ => false end.
+
+Lemma elems_of_total f : forall l,
+  Forall (fun w => w_is_stick w = false -> exists s, f w = POk s) l ->
+  exists els, elems_of f l = POk els /\ map e_is_stick els = map w_is_stick l.
+Proof.
+  induction l as [|w l IH]; intros HF.
+  - exists []. split; reflexivity.
+  - inversion HF as [|? ? Hw HFl]; subst. destruct (IH HFl) as [r [Hr Hm]].
+    simpl. destruct w as [s0 n|n|l1 n1].
+    + rewrite Hr. exists (EStr s0 :: r). split; [reflexivity|]. simpl. f_equal. exact Hm.
+    + rewrite Hr. exists (EStick :: r). split; [reflexivity|]. simpl. f_equal. exact Hm.
+    + destruct (Hw eq_refl) as [s Hs]. rewrite Hs, Hr.
+      exists (EStr s :: r). split; [reflexivity|]. simpl. f_equal. exact Hm.
+Qed.
+
+(* (conc_w is only ever called on inner lists; on a bare marker its value is irrelevant) *)
+Theorem conc_w_total cfg : forall w, goodw w = true -> w_is_stick w = false ->
+  forall level iol, exists s, conc_w cfg w level iol = POk s.
+Proof.
+  induction w using wchain_ind'; intros Hg Hns level iol.
+  - simpl. eauto.
+  - discriminate.
+  - simpl in Hg. apply andb_prop in Hg. destruct Hg as [Hhd Hall].
+    simpl. unfold conc_body.
+    set (one_liner := iol || (n <? p_max_len cfg - p_indent cfg * level)%Z).
+    set (new_level := if one_liner then level else (level + 1)%Z).
+    destruct (elems_of_total (fun w => conc_w cfg w new_level one_liner) l) as [els [Hels Hm]].
+    { rewrite forallb_forall in Hall. rewrite Forall_forall in H. apply Forall_forall.
+      intros w Hin Hw. apply (H w Hin (Hall w Hin) Hw). }
+    rewrite Hels.
+    assert (Has : exists strs, apply_stick els = POk strs).
+    { destruct l as [|w0 l]; [discriminate|]. destruct els as [|e els]; [discriminate|].
+      simpl in Hm. inversion Hm as [[Hm0 _]].
+      destruct e as [s|].
+      - unfold apply_stick. simpl. apply apply_stick_some.
+      - destruct w0; simpl in Hm0; try discriminate. }
+    destruct Has as [strs Hs]. rewrite Hs. eauto.
+Qed.
+
+Lemma forallb_app {A} (p : A -> bool) a b : forallb p (a ++ b) = forallb p a && forallb p b.
+Proof. induction a as [|x a IH]; simpl; [reflexivity|]. rewrite IH, andb_assoc. reflexivity. Qed.
+
+Lemma hd_ok_app a b : hd_ok a = true -> hd_ok (a ++ b) = true.
+Proof. destruct a as [|[ | |] a]; simpl; auto; discriminate. Qed.
+
+(* every operation on the spine (reached through operations, groups and fields only) has an
+   operand; operations inside simple elements are printed by str() and do not matter *)
+Fixpoint spine_ops_nonempty (t : item) : bool :=
+  match t with
+  | Op _ _ ops => (match ops with [] => false | _ => true end) && forallb spine_ops_nonempty ops
+  | Grp _ _ e | SearchField _ _ e => spine_ops_nonempty e
+  | _ => true
+  end.
+
+Definition good_list (l : list chain) : Prop := hd_ok l = true /\ forallb goodc l = true.
+
+Lemma good_between inl op : forallb goodc (between inl op) = true.
+Proof. unfold between. destruct inl, op; reflexivity. Qed.
+
+Theorem chains_good : forall t inl parent, spine_ops_nonempty t = true -> good_list (chains inl parent t).
+Proof.
+  induction t using item_ind'; intros inl parent Hn; try (split; reflexivity).
+  - simpl in Hn. destruct (IHt inl (Some CSearchField) Hn) as [H1 H2]. split; [reflexivity|]. simpl. exact H2.
+  - simpl in Hn. destruct (IHt inl (Some (cls_of_groupk k)) Hn) as [H1 H2]. split; [reflexivity|].
+    simpl. rewrite H1, H2. destruct inl; reflexivity.
+  - simpl in Hn. apply andb_prop in Hn. destruct Hn as [Hne Hall].
+    assert (G : good_list (ops_chains (chains inl (Some (cls_of_opk k))) inl (opk_op k) ops)).
+    { destruct ops as [|c ops]; [discriminate|]. clear Hne.
+      revert c H Hall. induction ops as [|c2 ops IHops]; intros c H Hall.
+      - inversion H as [|? ? Hc _]; subst. simpl in Hall. apply andb_prop in Hall.
+        simpl. rewrite app_nil_r. apply Hc. apply Hall.
+      - inversion H as [|? ? Hc Hrest]; subst.
+        change (forallb spine_ops_nonempty (c :: c2 :: ops))
+          with (spine_ops_nonempty c && forallb spine_ops_nonempty (c2 :: ops)) in Hall.
+        apply andb_prop in Hall. destruct Hall as [Hc1 Hall].
+        destruct (Hc inl (Some (cls_of_opk k)) Hc1) as [A1 A2].
+        destruct (IHops c2 Hrest Hall) as [B1 B2].
+        change (ops_chains (chains inl (Some (cls_of_opk k))) inl (opk_op k) (c :: c2 :: ops))
+          with (chains inl (Some (cls_of_opk k)) c ++ between inl (opk_op k)
+                ++ ops_chains (chains inl (Some (cls_of_opk k))) inl (opk_op k) (c2 :: ops)).
+        split; [apply hd_ok_app; exact A1|].
+        rewrite !forallb_app, A2, good_between, B2. reflexivity. }
+    simpl. destruct (parent_same parent (opk_op k)); [exact G|].
+    destruct G as [G1 G2]. split; [reflexivity|]. simpl. rewrite G1, G2. reflexivity.
+Qed.
+
+Theorem pretty_total cfg t : spine_ops_nonempty t = true -> exists s, pretty cfg t = Some s.
+Proof.
+  intros Hn. unfold pretty, pretty_res. rewrite (get_chains_spec t _ None (or_introl eq_refl)).
+  set (l := chains (p_inline cfg) None t).
+  destruct (chains_good t (p_inline cfg) None Hn) as [G1 G2]. fold l in G1, G2.
+  destruct (conc_w_total cfg (WSub (map count_chars l) (sum_counts (map count_chars l)))) with (level := 0%Z) (iol := false)
+    as [s Hs].
+  - change (goodw (WSub (map count_chars l) (sum_counts (map count_chars l))))
+      with (goodw (count_chars (CSub l))).
+    rewrite goodw_count. simpl. rewrite G1, G2. reflexivity.
+  - reflexivity.
+  - change (conc_w cfg (WSub (map count_chars l) (sum_counts (map count_chars l))) 0 false)
+      with (concatenates cfg (map count_chars l) (sum_counts (map count_chars l)) 0 false) in Hs.
+    rewrite Hs. eauto.
+Qed.
+
+(* ================================================================ F. what the parser returns *)
+(* for ANY LR tables: every operation node of a tree returned by the parser has an operand
+   (create_operation always keeps the two sides), so the prettifier never raises on it *)
+Require Import GenParser Lexer Actions LR Parser LRProofs.
+
+Fixpoint all_ops_nonempty (t : item) : bool :=
+  match t with
+  | Op _ _ ops => (match ops with [] => false | _ => true end) && forallb all_ops_nonempty ops
+  | SearchField _ _ e | Grp _ _ e | Boost _ e _ _ => all_ops_nonempty e
+  | Fuzzy _ x _ _ | Proximity _ x _ _ => all_ops_nonempty x
+  | Unary _ _ a | ORange _ _ a _ => all_ops_nonempty a
+  | Range _ lo hi _ _ => all_ops_nonempty lo && all_ops_nonempty hi
+  | Term _ _ _ | NoneItem _ => true
+  end.
+
+Lemma all_ops_spine : forall t, all_ops_nonempty t = true -> spine_ops_nonempty t = true.
+Proof.
+  induction t using item_ind'; simpl; intros Hn; auto.
+  apply andb_prop in Hn. destruct Hn as [H1 H2]. rewrite H1. simpl. clear H1.
+  induction ops as [|c ops IHops]; [reflexivity|].
+  inversion H as [|? ? Hc Hops]; subst. simpl in H2. apply andb_prop in H2. destruct H2 as [H3 H4].
+  simpl. rewrite (Hc H3). simpl. apply IHops; [exact Hops|exact H4].
+Qed.
+
+Definition val_inv (v : symval) : Prop :=
+  match v with VItem i => all_ops_nonempty i = true | VTok _ _ _ => True end.
+
+Lemma aon_set_meta i m : all_ops_nonempty (set_meta i m) = all_ops_nonempty i.
+Proof. destruct i; reflexivity. Qed.
+Lemma aon_add_head i s : all_ops_nonempty (add_head i s) = all_ops_nonempty i.
+Proof. apply aon_set_meta. Qed.
+Lemma aon_add_tail i s : all_ops_nonempty (add_tail_i i s) = all_ops_nonempty i.
+Proof. apply aon_set_meta. Qed.
+
+Lemma aon_operands k (x : item) :
+  all_ops_nonempty x = true ->
+  forallb all_ops_nonempty
+    (if match x with Op k' _ _ => opk_eqb k k' | _ => false end then children x else [x]) = true.
+Proof.
+  intros Hx. destruct x; try (simpl; simpl in Hx; rewrite ?Hx; reflexivity).
+  simpl.
+  destruct (opk_eqb k k0); simpl.
+  - simpl in Hx. apply andb_prop in Hx. apply Hx.
+  - simpl in Hx. rewrite Hx. reflexivity.
+Qed.
+
+Local Opaque htm_pos.
+
+Lemma binary_inv k a opv b v evs :
+  binary k a opv b = Ok (v, evs) -> all_ops_nonempty a = true -> all_ops_nonempty b = true -> val_inv v.
+Proof.
+  unfold binary. intros H Ha Hb.
+  pose proof (aon_operands k b Hb) as HB.
+  destruct (if match b with Op k' _ _ => opk_eqb k k' | _ => false end then children b else [b])
+    as [|b0 brest] eqn:HopsB; [discriminate|].
+  destruct (htm_pos _ false false) as [pos size]. inversion H; subst; clear H.
+  simpl. rewrite forallb_app. rewrite (aon_operands k a Ha). simpl in HB. simpl.
+  rewrite aon_add_head. rewrite HB.
+  destruct (if match a with Op k' _ _ => opk_eqb k k' | _ => false end then children a else [a]); reflexivity.
+Qed.
+
+Theorem run_action_inv a args v evs :
+  run_action a args = Ok (v, evs) -> Forall val_inv args -> val_inv v.
+Proof.
+  intros H Hok.
+  assert (Hunit : forall x, args = [x] -> v = x -> val_inv v).
+  { intros x E1 E2. subst. inversion Hok; subst. assumption. }
+  destruct a; simpl in H;
+    repeat match type of H with
+    | match ?l with [] => _ | _ :: _ => _ end = _ => destruct l as [|? ?]; try discriminate
+    | match ?x with VItem _ => _ | VTok _ _ _ => _ end = _ => destruct x; try discriminate
+    | match ?o with Some _ => _ | None => _ end = _ => destruct o eqn:?; try discriminate
+    | match ?i with Term _ _ _ => _ | _ => _ end = _ => destruct i; try discriminate
+    end;
+    try (inversion H; subst; clear H; eapply Hunit; reflexivity).
+  all: repeat match goal with
+       | Hx : Forall val_inv (_ :: _) |- _ => apply Forall_cons_iff in Hx; destruct Hx as [? Hx]
+       end.
+  all: simpl val_inv in *.
+  all: try (eapply binary_inv; eassumption).
+  all: try (inversion H; subst; clear H; simpl; rewrite ?aon_add_tail, ?aon_add_head; try assumption;
+            try reflexivity).
+  - (* range *)
+    repeat match goal with Hx : all_ops_nonempty _ = true |- _ => rewrite Hx; clear Hx end. reflexivity.
+  - (* field search *)
+    match goal with |- all_ops_nonempty (match ?e with Grp _ _ _ => _ | _ => _ end) = true =>
+      destruct e as [| |[]| | | | | | | |] end; assumption.
+Qed.
+
+Lemma token_value_inv t : val_inv (token_value t).
+Proof. unfold token_value. destruct (tk_type t); simpl; auto. Qed.
+
+Section AnyTablesInv.
+  Variable tb : tables.
+
+  Ltac break H := repeat match type of H with
+    | match ?x with _ => _ end = _ => destruct x eqn:?; try discriminate
+    | (if ?b then _ else _) = _ => destruct b eqn:?; try discriminate
+    end.
+
+  Lemma step_inv lexerr c c' :
+    step tb lexerr c = Next c' -> Forall val_inv (c_vals c) -> Forall val_inv (c_vals c').
+  Proof.
+    unfold step, do_shift, do_reduce, do_accept. intros H HI.
+    destruct (c_toks c) as [|t rest] eqn:Htoks; simpl in H; break H; inversion H; subst; clear H; simpl.
+    - constructor; [|apply Forall_skipn; exact HI].
+      eapply run_action_inv; [eassumption|]. apply Forall_rev, Forall_firstn, HI.
+    - constructor; [apply token_value_inv|exact HI].
+    - constructor; [|apply Forall_skipn; exact HI].
+      eapply run_action_inv; [eassumption|]. apply Forall_rev, Forall_firstn, HI.
+  Qed.
+
+  Lemma step_final_inv lexerr c t evs :
+    step tb lexerr c = Final (Ok t) evs -> Forall val_inv (c_vals c) -> all_ops_nonempty t = true.
+  Proof.
+    unfold step, do_shift, do_reduce, do_accept. intros H HI.
+    destruct (c_toks c) as [|tk rest] eqn:Htoks; simpl in H; break H; inversion H; subst; clear H;
+      inversion HI; subst; assumption.
+  Qed.
+
+  Lemma run_inv lexerr : forall fuel c t evs,
+    run tb lexerr fuel c = Done (Ok t) evs -> Forall val_inv (c_vals c) -> all_ops_nonempty t = true.
+  Proof.
+    induction fuel as [|f IH]; intros c t evs H HI; simpl in H; [discriminate|].
+    destruct (step tb lexerr c) as [c'|r evs1] eqn:Hs.
+    - eapply IH; [exact H|]. eapply step_inv; eassumption.
+    - inversion H; subst. eapply step_final_inv; eassumption.
+  Qed.
+End AnyTablesInv.
+
+Theorem parse_ops_nonempty s t : parse s = Some (Ok t) -> all_ops_nonempty t = true.
+Proof.
+  unfold parse, parse_full, parse_with. destruct (lex s) as [toks e].
+  destruct (run gen_tables e (parse_fuel toks) _) as [r evs|] eqn:Hr; [|discriminate].
+  intros H. inversion H; subst. eapply run_inv; [exact Hr|]. constructor.
+Qed.
+
+Theorem pretty_total_parsed cfg s t : parse s = Some (Ok t) -> exists p, pretty cfg t = Some p.
+Proof. intros H. apply pretty_total, all_ops_spine, (parse_ops_nonempty s). exact H. Qed.
+
+(* ================================================================ G. layout-erased equality is luqum's == *)
+Require Import Eq EqSpec EqProofs Erase.
+
+Lemma fingerprint_layout_erase : forall a, fingerprint (Erase.erase a) = fingerprint a.
+Proof.
+  induction a using item_ind'; simpl; try congruence.
+  f_equal. rewrite map_map. induction H as [|c l Hc _ IH]; simpl; [reflexivity|]. rewrite Hc, IH. reflexivity.
+Qed.
+
+Lemma layout_erase_eqb a b : Erase.erase a = Erase.erase b -> item_eqb b a = true.
+Proof.
+  intros H. apply eq_iff_fingerprint.
+  rewrite <- (fingerprint_layout_erase a), <- (fingerprint_layout_erase b), H. reflexivity.
 Qed.
